@@ -631,9 +631,47 @@ func elemPtr(elem types.Type, ref, idx string) Val {
 func mapKeySort(m *types.Map) string {
 	ls := leaves(m.Key())
 	if len(ls) != 1 {
-		panic(unsupported("map key type " + m.Key().String()))
+		return sInt // packed (mapKeyTerm)
 	}
 	return ls[0].Sort
+}
+
+// mapKeyTerm: the term a map of type mt is indexed with for key k. A key with several leaves (a comparable struct such
+// as netip.Addr) is packed into one integer by an uninterpreted function that is injective (it has inverses), so two
+// keys index the same entry exactly when all their leaves agree — Go's == on comparable structs. String leaves are
+// compared by identity of their interned term, as everywhere else.
+func (ex *Exec) mapKeyTerm(mt *types.Map, k Val) string {
+	ls := leaves(mt.Key())
+	if len(ls) == 1 {
+		if len(k.L) != 1 {
+			panic(unsupported("map key value with several leaves for a scalar key type"))
+		}
+		return k.L[0]
+	}
+	if len(k.L) != len(ls) {
+		panic(unsupported("map key leaves do not match the key type " + mt.Key().String()))
+	}
+	name := "pack!" + sanitize(typeKey(mt.Key()))
+	if _, ok := ex.declared[name]; !ok {
+		var sorts, vars, bound []string
+		for i, l := range ls {
+			sorts = append(sorts, l.Sort)
+			v := fmt.Sprintf("k!%d", i)
+			vars = append(vars, v)
+			bound = append(bound, "("+v+" "+l.Sort+")")
+		}
+		ex.declareFun(name, sorts, sInt)
+		call := app(name, vars...)
+		var inv []string
+		for i, l := range ls {
+			un := fmt.Sprintf("un%s!%d", name, i)
+			ex.declareFun(un, []string{sInt}, l.Sort)
+			inv = append(inv, eq(app(un, call), vars[i]))
+		}
+		ex.preAssume = append(ex.preAssume, "(forall ("+strings.Join(bound, " ")+") (! "+and(inv...)+" :pattern ("+call+")))")
+		ex.used["map keys of type "+mt.Key().String()+" are packed by an injective uninterpreted function (equality of keys = equality of all leaves)"] = true
+	}
+	return app(name, k.L...)
 }
 
 func (ex *Exec) mapHas(st *State, m Val, k string) string {
